@@ -57,7 +57,10 @@ CLAIMS = [
         "text": "Props/C05.lean: Rel carries `sum of stripe counters = number of pairs`, every operation re-establishes Rel (C02), hence size(), "
                 "empty(), capacity(), load_factor() are exact after any operation sequence (size_exact_after_any_run), across displacement "
                 "(no counter touched), lock-array growth (sum preserved), deferred migration, shrinking, clear and stream extraction (C12). "
-                "The concurrent clause (after all threads joined) is covered by K3's final-state scan in the C01 check, not by a theorem here.",
+                "The concurrent clause is Props/C05Conc.lean: after EVERY interleaving of the atomic critical sections of Model/Conc.lean (arbitrary stale "
+                "snapshots/paths) and of whole locked sections, and at every cut of such a schedule, size() = number of pairs of the linearized map, "
+                "empty() iff it is empty, capacity exact (size_exact_after_any_interleaving, size_exact_with_locked_sections, size_exact_at_every_cut); "
+                "on the real code it is tied by K3's final-state scan.",
         "design_ref": "DESIGN.md 6/C05, 12",
         "note": "Trusted as for C02. Per-stripe counters are deliberately not claimed exact (displacement moves elements between stripes).",
     },
